@@ -493,6 +493,15 @@ class FnEmitter:
         v = self.L.facts.get('static', {}).get(nm)
         if v is not None:
             return '((%s)%s)' % (ct, v)
+        # a constexpr static data member of an instantiated class: its initializer (already substituted by clang) is lowered in place
+        decl = self.a.by_id.get(rd.get('id')) or rd
+        init = [c for c in children(decl) if not c.get('kind', '').endswith('Attr')]
+        if decl.get('constexpr') and len(init) == 1 and nm not in getattr(self, '_static_busy', ()):
+            self._static_busy = getattr(self, '_static_busy', ()) + (nm,)
+            try:
+                return '((%s)(%s))' % (ct, self.rv(init[0]))
+            finally:
+                self._static_busy = self._static_busy[:-1]
         raise Unsupported('static member ' + str(nm))
 
     def rv_conv(self, e):
@@ -1252,9 +1261,18 @@ class FnEmitter:
         if k == 'WhileStmt':
             cond, body = ch[0], ch[1]
             pc, ctext = self.sub_scoped(cond, self.rv)
-            if pc:
-                raise Unsupported('while condition with hoisted calls')
             self.loopn += 1
+            if pc:
+                # the condition contains calls that had to be hoisted: they are re-evaluated at the head of every iteration
+                out.append(ind + 'while (1)')
+                out.append('/*@LOOP %d@*/' % self.loopn)
+                out.append(ind + '{')
+                for l in pc:
+                    out.append(ind + '  ' + l)
+                out.append(ind + '  if (!(%s)) break;' % ctext)
+                self.stmt_block(body, out, ind + '  ')
+                out.append(ind + '}')
+                return
             out.append(ind + 'while (%s)' % ctext)
             out.append('/*@LOOP %d@*/' % self.loopn)
             self.stmt_block(body, out, ind)
